@@ -568,9 +568,6 @@ void judgeLookups(const AnnotatorPtr &ann, const ModelPtr &cur, const Labels &L,
             if (issuesAfterItem == 0) out.push_back({std::string("C15:unexplained-failure:annotator:item(id):") + (n == 0 ? "unknown-id" : "duplicated-id"), {{"id", id}}});
         }
         for (size_t i = 0; i <= n; ++i) {
-            // item(id, 1) for an id listed exactly once reads past the end of a vector (genuine defect, family "lookupindex");
-            // here it would abort every state that has a unique id, so that single probe lives in its own family
-            if (i == n && n == 1 && !g_options.count("probe-index")) continue;
             auto x = ann->item(id, i);
             size_t ni = ann->issueCount();
             check("item(id,index)");
@@ -911,11 +908,18 @@ struct AnnWorld
             ModelPtr m = model(o.a);
             u.ann->clearAllIds(m);
             checkLogger("clearAllIds(model)", out);
-            cur = o.a == 2 ? -1 : o.a;
-            editedSince = false;
-            if (cur >= 0) {
+            if (m) {
+                cur = o.a;
+                editedSince = false;
                 Snap post = snapshot(curModel(), u.L);
                 for (auto &c : post.c) if (!c.id.empty()) { out.push_back({"clear:clearAllIds(model):id-survives", {{"carrier", c.key}, {"post", post.str()}}}); break; }
+            } else {
+                // clearAllIds(null): whether the annotator then forgets or keeps its model is not part of the statement (the
+                // repository changed this behaviour in acf12c7); the reference follows the implementation. The call fails: issue.
+                auto held = u.ann->model();
+                cur = (held && held == u.m0) ? 0 : (held && held == u.m1) ? 1 : -1;
+                if (u.ann->issueCount() == 0) out.push_back({"C15:unexplained-failure:annotator:clearAllIds(model):null-model", json::object()});
+                if (!(snapshot(u.m0, u.L) == pre0) || !(snapshot(u.m1, u.L) == pre1)) out.push_back({"clear:clearAllIds(null-model):modified-a-model", json::object()});
             }
             break;
         }
